@@ -31,7 +31,8 @@ else:
     OUT = Path(os.environ.get("VERIF_OUT", "/tmp/verif-out-" + hashlib.sha256(str(REPO).encode()).hexdigest()[:10]))
     COQ = OUT / "coq"
     OUT.mkdir(parents=True, exist_ok=True)
-    subprocess.run(["rsync", "-a", "--delete", "--exclude", "cases/", str(VERIF / "coq") + "/", str(COQ) + "/"], check=True)
+    if not os.environ.get("VERIF_NO_SYNC"):   # helper processes of a check (C11 thread workers) only need SRC
+        subprocess.run(["rsync", "-a", "--delete", "--exclude", "cases/", str(VERIF / "coq") + "/", str(COQ) + "/"], check=True)
 SRC = REPO / "src"
 GUARD = "LENSKIT_LKPY_VERIF"
 PY = "/venv/bin/python"
